@@ -16,7 +16,7 @@
 (*   stage "extract"   one action per kind of emitted extraction           *)
 (*                     (ReturnNone, StreamBytes, StreamSseJson,            *)
 (*                     ContentTypeSwitch, StructureJson, CastJson,         *)
-(*                     RaiseDefault; variant "fixed": ReturnText,          *)
+(*                     ReturnText, RaiseDefault; variant "fixed" only:     *)
 (*                     StreamRecords);                                     *)
 (*   stage "done"      Judge evaluates the property's clauses             *)
 (*                     (Reply!Failures) INTO A VERDICT: one DESIGN line    *)
